@@ -151,6 +151,12 @@ def _error(kind, n):
     if kind == "timeout":
         return elasticsearch.ConnectionTimeout("verif_timeout_%d" % n)
     if kind == "transport":
+        # every transport error that is not a plain ConnectionError is an ordinary error outcome (on-error decides): the base
+        # class, and the TLS error - the one SUBCLASS of ConnectionError that elasticsearch-py exports
+        if n % 3 == 0:
+            return elastic_transport.TlsError("verif_tls_%d" % n)
+        if n % 3 == 2:
+            return elasticsearch.SSLError("verif_ssl_%d" % n, errors=(OSError("verif inner"),))
         return elastic_transport.TransportError("verif_transport_%d" % n)
     raise tlc.MachineryError("unknown outcome %r" % (kind,))
 
